@@ -29,6 +29,10 @@ def seed_facts(rng):
     return {"hash": h.ty, "updates": h.updates, "lo": lo, "hi": hi, "impl": rng.info.get("impl", "")}
 
 
+class _NoFF(Exception):
+    pass
+
+
 def label_shape(v):
     """label value -> (tag byte, description of the remaining bytes)"""
     if not isinstance(v, Vec):
@@ -149,8 +153,15 @@ def aggregated_views(ck, F):
 
 def body(ck, F, cfg):
     # ---- R12.1 chain seed
+    has_ff = True
     for p in (P_NEW, P_FF, P_NEXT, P_INC, P_BNEW, P_DEF, P_SG, P_SH):
-        F.fn(p)
+        try:
+            F.fn(p)
+        except FX.AnchorMissing:
+            if p != P_FF:
+                raise
+            has_ff = False  # no skipping helper: the chain is advanced with Iterator::skip, i.e. through `next` (R12.2 next:one-draw)
+            continue
         ck.fn(p)
     I = H.new_interp(F)
     ch = I.call_fn(P_NEW, [Bytes([("lit", b"LBL")])])
@@ -175,6 +186,8 @@ def body(ck, F, cfg):
     I3 = H.new_interp(F)
     k = isym("skip")
     try:
+        if not has_ff:
+            raise _NoFF()
         r3 = I3.call_fn(P_FF, [st, IntV(k)])
         d3 = I3.draw_log
         loops = [l for l in I3.loop_log if FX.same_fn(l["fn"], P_FF)]
@@ -182,25 +195,28 @@ def body(ck, F, cfg):
         guards = [it for it in I3.trace.items if it[0] in ("guard", "alt")]
         okf = okf and not guards
         ck.require(okf, "R12.2", "fast_forward:n-draws", f"fast_forward(n) must discard exactly n draws of the same kind from the chain's PRNG, unconditionally; draws={[(str(x['atom']), x['kind']) for x in d3]} loops={[(str(l['n'])) for l in loops]} conditions={len(guards)}", FX.short(F.fn(P_FF)["sp"]))
+    except _NoFF:
+        ck.ok("R12.2", "fast_forward:n-draws", detail="no dedicated helper in this tree: elements are skipped with Iterator::skip, which consumes the chain through its own `next` (one draw each); the offset itself is checked by increase:G_vec / increase:H_vec")
     except Unanalysable as u:
         ck.fail("R12.2", "fast_forward:n-draws", f"unanalysable: {u.msg}", u.where, kind="unanalysable")
     # ---- increase_capacity: labels, offsets, both vectors, all parties
     calls = []
 
     def hook_new(I_, args, node):
+        # a chain is the infinite sequence CH<tag>(party, 0), CH<tag>(party, 1), .. determined by its label
         lab = I_.deref(args[0])
-        c = Opaque("chain", label=lab, idx=[lc["isym"] for lc in I_.loop_ctx if lc.get("isym") is not None])
-        calls.append(c)
-        return c
-
-    def hook_ff(I_, args, node):
-        c, n = I_.deref(args[0]), I_.deref(args[1])
-        shape = label_shape(c.info["label"])
+        calls.append(Opaque("chain", label=lab, idx=[lc["isym"] for lc in I_.loop_ctx if lc.get("isym") is not None]))
+        shape = label_shape(lab)
         tag = shape[0] if shape else -1
         party = shape[1][1] if shape and shape[1] else None
         pe = party.e if isinstance(party, IntV) else sp.Symbol("?")
         f = sfun(f"CH{tag}")
-        return IterV(None, infinite=lambda i, f=f, pe=pe, n=n: Pt.atom(f(pe, sp.expand(n.e + i))))
+        return IterV(None, infinite=lambda i, f=f, pe=pe: Pt.atom(f(pe, sp.expand(i))))
+
+    def hook_ff(I_, args, node):
+        c, n = I_.deref(args[0]), I_.deref(args[1])
+        inf = c.infinite
+        return IterV(None, infinite=lambda i, inf=inf, n=n: inf(sp.expand(n.e + i)))
 
     I4 = H.new_interp(F, {P_NEW: hook_new, P_FF: hook_ff})
     old, new, parties = isym("old"), isym("new"), isym("parties")
